@@ -262,6 +262,9 @@ class Schulze:
         """
         paths = self.widest_paths(votes)
         scores = collections.defaultdict(int)
+        for pair in votes:
+            for cand in pair:
+                scores[cand]    # every candidate starts with no path wins
         for winner, loser in pairwise_wins(paths):
             scores[winner] += 1
             scores[loser]    # to make zero appear if not present
